@@ -418,16 +418,16 @@ Fixpoint pwf (h : mheld) (sp : option mobj) (prog : list mact) : Prop :=
     match a with
     | ALock => pwf HWrite sp r
     | ARLock => pwf HRead sp r
-    | AUnlock | ARUnlock => sp <> Some OOwn /\ pwf HNone sp r
-    | ABegin o => (o = OOwn -> h <> HNone) /\ pwf h (Some o) r
+    | AUnlock | ARUnlock => (forall o, sp = Some o -> mshared o = false) /\ pwf HNone sp r
+    | ABegin o => (mshared o = true -> h <> HNone) /\ pwf h (Some o) r
     | ANext _ => pwf h sp r
     | AEnd _ => pwf h None r
-    | AWrite o => o = OOwn /\ h = HWrite /\ pwf h sp r
+    | AWrite o => mshared o = true /\ h = HWrite /\ pwf h sp r
     end
   end.
 
 Definition tinv (t : mthread) : Prop :=
-  pwf (mt_held t) (mt_span t) (mt_prog t) /\ (mt_span t = Some OOwn -> mt_held t <> HNone).
+  pwf (mt_held t) (mt_span t) (mt_prog t) /\ (forall o, mt_span t = Some o -> mshared o = true -> mt_held t <> HNone).
 
 Definition isw (t : mthread) : bool := mheld_is HWrite t.
 Definition isr (t : mthread) : bool := mheld_is HRead t.
@@ -479,14 +479,18 @@ Proof.
   constructor; [assumption | apply IH; cbn in H1, H2; assumption].
 Qed.
 
-Lemma no_span_own l : Forall tinv l -> Forall (fun u => mt_held u = HNone) l ->
-  existsb (span_on OOwn) l = false.
+Lemma mobj_eqb_eq a b : mobj_eqb a b = true -> a = b.
+Proof. destruct a, b; cbn; try discriminate; try reflexivity. intros H. apply Nat.eqb_eq in H. now subst. Qed.
+
+Lemma no_span_own w l : mshared w = true -> Forall tinv l -> Forall (fun u => mt_held u = HNone) l ->
+  existsb (span_on w) l = false.
 Proof.
-  induction l as [|t l IH]; intros H1 H2; [reflexivity|].
+  intros Hsh. induction l as [|t l IH]; intros H1 H2; [reflexivity|].
   inversion H1 as [|? ? Ht Hl]; subst. inversion H2 as [|? ? Hn Hl2]; subst.
   cbn [existsb]. rewrite (IH Hl Hl2), orb_false_r.
   unfold span_on. destruct (mt_span t) as [o|] eqn:E; [|reflexivity].
-  destruct o; [|reflexivity]. destruct Ht as [_ Ht]. exfalso. apply Ht; [exact E | exact Hn].
+  destruct (mobj_eqb w o) eqn:Eo; [|reflexivity]. apply mobj_eqb_eq in Eo. subst o.
+  destruct Ht as [_ Ht]. exfalso. exact (Ht _ E Hsh Hn).
 Qed.
 
 Lemma held_counts h sp rest (t : mthread) :
@@ -512,7 +516,7 @@ Proof.
   assert (HFab : Forall tinv (a ++ b)) by (apply Forall_app; split; assumption).
   destruct Ht as [Hw Hs]. rewrite Ep in Hw.
   unfold lock_ok in HL. rewrite !nw_app, !nr_app, !nw_cons, !nr_cons in HL.
-  assert (Hfin : forall h sp, pwf h sp rest -> (sp = Some OOwn -> h <> HNone) ->
+  assert (Hfin : forall h sp, pwf h sp rest -> (forall o, sp = Some o -> mshared o = true -> h <> HNone) ->
             (let c := ((if match h with HWrite => true | _ => false end then 1 else 0) + nw a + nw b)%nat in
              let d := ((if match h with HRead => true | _ => false end then 1 else 0) + nr a + nr b)%nat in
              c = 0%nat \/ (c = 1%nat /\ d = 0%nat)) ->
@@ -526,30 +530,30 @@ Proof.
   - (* ALock *)
     destruct (forallb (mheld_is HNone) (a ++ b)) eqn:G; [|exact I].
     rewrite E3. apply all_none_counts in G. rewrite nw_app, nr_app in G.
-    apply Hfin; [assumption | intros _; discriminate | cbn; lia].
+    apply Hfin; [assumption | intros _ _ _; discriminate | cbn; lia].
   - (* AUnlock *)
     rewrite E3. destruct Hw as [Hw1 Hw2].
-    apply Hfin; [assumption | intros C; contradiction | destruct (mt_held t); cbn in *; lia].
+    apply Hfin; [assumption | intros o C S; rewrite (Hw1 o C) in S; discriminate | destruct (mt_held t); cbn in *; lia].
   - (* ARLock *)
     destruct (forallb (fun u => negb (mheld_is HWrite u)) (a ++ b)) eqn:G; [|exact I].
     rewrite E3. apply no_writer_count in G. rewrite nw_app in G.
-    apply Hfin; [assumption | intros _; discriminate | destruct (mt_held t); cbn in *; lia].
+    apply Hfin; [assumption | intros _ _ _; discriminate | destruct (mt_held t); cbn in *; lia].
   - (* ARUnlock *)
     rewrite E3. destruct Hw as [Hw1 Hw2].
-    apply Hfin; [assumption | intros C; contradiction | destruct (mt_held t); cbn in *; lia].
+    apply Hfin; [assumption | intros o C S; rewrite (Hw1 o C) in S; discriminate | destruct (mt_held t); cbn in *; lia].
   - (* ABegin *)
     rewrite E3. destruct Hw as [Hw1 Hw2].
-    apply Hfin; [assumption | intros C; injection C as ->; apply Hw1; reflexivity
+    apply Hfin; [assumption | intros o' C S; injection C as ->; apply Hw1; exact S
                  | destruct (mt_held t); cbn in *; lia].
   - (* ANext *)
     rewrite E3. apply Hfin; [assumption | assumption | destruct (mt_held t); cbn in *; lia].
   - (* AEnd *)
-    rewrite E3. apply Hfin; [assumption | intros C; discriminate | destruct (mt_held t); cbn in *; lia].
+    rewrite E3. apply Hfin; [assumption | intros o' C; discriminate | destruct (mt_held t); cbn in *; lia].
   - (* AWrite: the writer holds the write lock, so nobody else is inside a span of the own map *)
-    destruct Hw as [-> [Hh Hw]]. rewrite Hh in HL.
+    destruct Hw as [Hsh [Hh Hw]]. rewrite Hh in HL.
     assert (Hn : Forall (fun u => mt_held u = HNone) (a ++ b)).
     { apply counts_zero_none; [rewrite nw_app | rewrite nr_app]; cbn in HL; lia. }
-    rewrite (no_span_own _ HFab Hn). rewrite E3.
+    rewrite (no_span_own _ _ Hsh HFab Hn). rewrite E3.
     apply Hfin; [assumption | assumption | rewrite Hh; cbn in *; lia].
 Qed.
 
@@ -568,12 +572,12 @@ Proof. intros H. induction n; cbn [repeat app pwf]; [assumption | repeat split; 
 
 Lemma prog_wf t op : pwf HNone None (mop_prog true t op).
 Proof.
-  destruct op as [n|n|n|]; cbn [mop_prog send_metadata_prog app pwf].
-  - split; [intros _; discriminate|]. apply pwf_writes. cbn [pwf]. split; [discriminate | exact I].
-  - repeat split; try discriminate. apply pwf_next. cbn [app pwf].
-    split; [discriminate|]. split; [discriminate|]. apply pwf_next. cbn [pwf]. exact I.
-  - apply pwf_writes. cbn [pwf]. split; [discriminate | exact I].
-  - repeat split; discriminate.
+  destruct op as [n|n|n|]; cbn [mop_prog send_metadata_prog app pwf mshared].
+  - split; [intros _; discriminate|]. apply pwf_writes. cbn [pwf]. split; [intros o C; discriminate | exact I].
+  - repeat split; try discriminate. apply pwf_next. cbn [app pwf mshared].
+    split; [intros o C; discriminate|]. split; [discriminate|]. apply pwf_next. cbn [pwf]. exact I.
+  - repeat split; try discriminate. apply pwf_writes. cbn [pwf]. split; [intros o C; discriminate | exact I].
+  - repeat split; try discriminate.
 Qed.
 
 Lemma threads_ginv ops : forall t, ginv (mthreads_from true t ops).
@@ -581,7 +585,7 @@ Proof.
   induction ops as [|op r IH]; intros t; cbn [mthreads_from].
   - split; [constructor | left; reflexivity].
   - destruct (IH (S t)) as [H1 H2]. split.
-    + constructor; [|assumption]. split; cbn; [apply prog_wf | discriminate].
+    + constructor; [|assumption]. split; cbn; [apply prog_wf | intros o C; discriminate].
     + unfold lock_ok in *. rewrite nw_cons, nr_cons. cbn. exact H2.
 Qed.
 
